@@ -12,7 +12,7 @@ package coverage
 //@ spec covLen(rev []glyph.ID) int = ite(4 + 2*len(rev) <= 4 + 6*nranges(rev, len(rev)), 4 + 2*len(rev), 4 + 6*nranges(rev, len(rev)))
 
 //@ func (table Table) encInfo() (rev []glyph.ID, format1Length int, format2Length int)   props: C08 C01 C16
-//@   requires covValid(table) && len(table) <= 65535
+//@   requires covValid(table) && len(table) <= 65536
 //@   may_panic
 //@   ensures len(rev) == len(table) && fresh(rev) && off(rev) == 0
 //@   ensures forall g uint16 :: has(table, g) ==> rev[table[g]] == g
@@ -34,7 +34,7 @@ package coverage
 //@     invariant forall g uint16 :: has(table, g) ==> rev[table[g]] == g
 
 //@ func (table Table) EncodeLen() (n int)   props: C08 C01
-//@   requires covValid(table) && len(table) <= 65535
+//@   requires covValid(table) && len(table) <= 65536
 //@   modifies nothing
 //@   ensures n >= 4 && n <= 4 + 2*len(table)
 //@   return_assert n == ite(format1Length <= format2Length, format1Length, format2Length)
@@ -77,7 +77,7 @@ package coverage
 
 //@ func Read(p *parser.Parser, pos int64) (table Table, err error)   props: C02 C18 C08
 //@   requires parser.inv(p) && pos >= 0
-//@   ensures err == nil ==> table != nil && fresh(table) && covValid(table)
+//@   ensures err == nil ==> table != nil && fresh(table) && covValid(table) && len(table) <= 65536
 //@   ensures err == nil ==> parser.inv(p)
 //@   ensures p.r == old(p.r)
 //@   ensures faults(p.r) > old(faults(p.r)) ==> err != nil
